@@ -1,6 +1,6 @@
-\* (thorough) 1..3 files x 0..2 items, two CPU kinds, two filters
-CONSTANTS MaxFiles = 3 MaxItems = 2 Starts = {0, 300} ByteLens = {0, 2} EntryAddrs = {4660}
-  CpuSegGran <- CSG_Two Forms <- Forms_Both Filters <- F_Two Creators <- Cr_One
+\* (thorough) 1..4 files x 0..1 items (the property's "sequences of 1..4 code files"), two CPU kinds, two filters
+CONSTANTS MaxFiles = 4 MaxItems = 1 Starts = {300} ByteLens = {0, 2} EntryAddrs = {4660}
+  CpuSegGran <- CSG_Two Forms <- Forms_Both Filters <- F_Two Creators <- Cr_One Quiets <- Q_No Dev <- D_None
 SPECIFICATION Spec
 INVARIANTS Conforms StepRunAgrees PrefixOK RoundTrip HeaderRule
 PROPERTY Monotone
